@@ -580,14 +580,14 @@ SPEC = Property(
     layers=[
         Layer("roundtrip-boundary", run_roundtrip, enumerate=enum_boundary, exhaustive=True,
               space="every class x every scalar field alone x boundary values / sizes / enum members", min_nontrivial=200),
-        Layer("roundtrip-gen", run_roundtrip, strategy=roundtrip_cases, n={"quick": 3000, "thorough": 80000}, min_nontrivial=300),
+        Layer("roundtrip-gen", run_roundtrip, strategy=roundtrip_cases, n={"quick": 10000, "thorough": 150000}, min_nontrivial=300),
         Layer("alias-fields", run_roundtrip, enumerate=enum_alias, exhaustive=True, space="first-declared fields of duplicated TLV types"),
         Layer("ble-char-signature", run_ble_char_sig, strategy=lambda: st.builds(lambda c: {"char": c}, char_desc(with_service=True)),
-              n={"quick": 1500, "thorough": 30000}),
+              n={"quick": 5000, "thorough": 60000}),
         Layer("ble-service-linked-grid", run_ble_service_sig, enumerate=enum_linked, exhaustive=True,
               space="ids with every byte value in low/high position, lists of 0..6 ids", min_nontrivial=500),
-        Layer("ble-service-signature", run_ble_service_sig, strategy=service_sig_cases, n={"quick": 1500, "thorough": 30000}),
-        Layer("coap-database", run_db, strategy=db_cases, n={"quick": 800, "thorough": 20000}, min_nontrivial=100),
+        Layer("ble-service-signature", run_ble_service_sig, strategy=service_sig_cases, n={"quick": 5000, "thorough": 60000}),
+        Layer("coap-database", run_db, strategy=db_cases, n={"quick": 2500, "thorough": 40000}, min_nontrivial=100),
     ],
     assumptions=["reference struct encoder vlib/refhap.enc_struct written from HAP-BLE 7.3.3 / TLV8 rules",
                  "every encoded field is >= 1 byte; float-annotated fields (no serializer in the tree) and packed integer lists "
